@@ -69,7 +69,7 @@ def gen_scripts(h, pid, tier, seed, methods):
     hists = vlib.printed(r["out"], "GEN")
     total = len(hists)
     # quick: a deterministic sample; thorough: everything
-    step = max(1, total // 1500) if tier == "quick" else 1
+    step = max(1, total // 1500) if tier == "quick" else max(1, total // 12000)
     out = []
     for i in range(seed % step, total, step):
         try:
